@@ -15,7 +15,7 @@ import itertools
 from ..cfg import cfg_of
 from ..flow import deref, flow_of, path_of
 from ..loader import FUNC, AnalysisError, dotted, last_name, loc, short, walk_local, enclosing_func
-from ..util import ENGBASE, PATH, REPEX, TIS, all_calls, arg_for_param, kwarg, last_key, oriented, param_index
+from ..util import ASE, ENGBASE, PATH, REPEX, TIS, all_calls, arg_for_param, kwarg, last_key, oriented, param_index
 from ..variants import B, K
 
 EXPLANATION = (
@@ -981,6 +981,7 @@ def run(ctx):
     ctx.rule("R-9.8", "the tests that decide whether a path end still needs extension compare the frame's order parameter with elements of the ensemble's own interfaces (not a cap / sub-ensemble / modified copy)", floor=2)
     ctx.rule("R-9.9", "no `for` variable of the move / path code is read after its loop has ended", floor=15)
     ctx.rule("R-9.10", "no verdict (`<path>.status = code`) of a move function is overwritten on every path before it is read", floor=10)
+    ctx.rule("R-9.12", "every engine can deliver maxlen frames (step budget = path.maxlen * subcycles), so the length tests of the moves see an unfinished trajectory (shared with C12 R-12.14)", floor=5)
     ctx.rule("R-9.11", "Metropolis length budget of shoot: int((L_old - 2)/xi) + 2, backward budget maxlen - 1, forward budget maxlen - len(back) + 1 (linear forms)", floor=3)
     ctx.rule("R-9.1", "every return of a move function pairs flag True with status 'ACC' and flag False with a non-'ACC' status", floor=30)
     ctx.rule("R-9.2", "the job's path is replaced only under status == 'ACC'; treat_output numbers only new paths", floor=4)
@@ -997,6 +998,9 @@ def run(ctx):
     ctx.attempt(r98, ctx)
     ctx.attempt(r910, ctx)
     ctx.attempt(r911, ctx)
+    from . import c12
+    from .shared import RuleProxy
+    ctx.attempt(c12.r1214, RuleProxy(ctx, "R-9.12", " (a zero swap ignores propagate's flag and recognises an unfinished trajectory only by length == maxlen: a shorter one is accepted although it ends inside the interfaces)"))
     from .shared import stale_loop_variable
     ctx.attempt(stale_loop_variable, ctx, "R-9.9", [TIS, PATH], None, " (the move would test / store another frame or ensemble)")
     from .shared import role_agreement
@@ -1004,6 +1008,7 @@ def run(ctx):
 
 
 VARIANTS = [
+    B("c09-ase-one-frame-short", ASE, "        for i in range(self.subcycles * path.maxlen):", "        for i in range(self.subcycles * (path.maxlen - 1)):", "R-9.12", why="seeded C09_e"),
     B("c09-metropolis-counts-end-points", TIS, "            int((path.length - 2) / ens_set[\"rgen\"].random()) + 2,", "            int((path.length - 1) / ens_set[\"rgen\"].random()) + 2,", "R-9.11", control=True),
     B("c09-metropolis-offset-one", TIS, "            int((path.length - 2) / ens_set[\"rgen\"].random()) + 2,", "            int((path.length - 2) / ens_set[\"rgen\"].random()) + 1,", "R-9.11"),
     B("c09-forward-budget-no-shared-point", TIS, "    path_forw = path.empty_path(maxlen=(maxlen - path_back.length + 1))", "    path_forw = path.empty_path(maxlen=(maxlen - path_back.length))", "R-9.11"),
